@@ -226,7 +226,8 @@ def _branch_and_price(
     frac_idx, frac_val = _most_fractional(x_vals, eps)
     if frac_idx is None:
         solution = _build_solution(x_vals, columns, eps)
-        return Result(solution, lp_obj, 0, total_cg_iters, Status.OPTIMAL)
+        if _covers(solution, demands):
+            return Result(solution, lp_obj, 0, total_cg_iters, Status.OPTIMAL)
 
     # Initialize B&B
     best_solution: dict[tuple[int, ...], int] | None = None
@@ -273,8 +274,9 @@ def _branch_and_price(
         if frac_idx is None:
             # Integer feasible - update incumbent
             obj = sum(x for x in x_vals if x > eps)
-            if obj < best_obj - eps:
-                best_solution = _build_solution(x_vals, columns, eps)
+            solution = _build_solution(x_vals, columns, eps)
+            if obj < best_obj - eps and _covers(solution, demands):
+                best_solution = solution
                 best_obj = obj
 
                 # Check gap
@@ -474,6 +476,11 @@ def _build_solution(x_vals, columns, eps):
             if count > 0:
                 solution[columns[i]] = count
     return solution
+
+
+def _covers(solution, demands):
+    """Check that a plan produces at least the demanded amount of every row."""
+    return all(sum(col[i] * count for col, count in solution.items()) >= d for i, d in enumerate(demands))
 
 
 def _round_solution(x_vals, columns, demands, eps):
